@@ -462,6 +462,16 @@ def enc_blocks(od):
     return out
 
 
+def scribble(a):
+    """what a caller does with a result it owns: process it in place (taper, detrend, zero).  The arrays a read returns
+    are the caller's; nothing the reader returns later may depend on what was done to them"""
+    try:
+        if isinstance(a, np.ndarray) and a.size and a.flags.writeable:
+            a[...] = np.zeros((), dtype=a.dtype)
+    except (ValueError, TypeError):
+        pass
+
+
 class Impl:
     """the real reader on one channel, answers in the model's output format (memoised)"""
 
@@ -483,7 +493,11 @@ class Impl:
         r = self.r
         self.nreads += 1
         if q[0] == 1:
-            return enc_blocks(r.read(q[1], q[2], CHAN, None if q[3] < 0 else q[3]))
+            od = r.read(q[1], q[2], CHAN, None if q[3] < 0 else q[3])
+            out = enc_blocks(od)
+            for v in od.values():
+                scribble(v)
+            return out
         if q[0] == 2:
             od = r.get_continuous_blocks(q[1], q[2], CHAN)
             out = [len(od)]
@@ -498,7 +512,9 @@ class Impl:
             except TypeError:
                 return [2]
             t = np.array(tags_of(z), dtype=np.int64)
-            return [0, z.ndim] + list(z.shape) + t.reshape(-1).tolist()
+            out = [0, z.ndim] + list(z.shape) + t.reshape(-1).tolist()
+            scribble(z)
+            return out
         if q[0] == 4:
             f, l = r.get_bounds(CHAN)
             return [0 if f is None else 1, 0 if f is None else int(f), 0 if l is None else 1, 0 if l is None else int(l)]
